@@ -46,7 +46,15 @@ pub fn datetime(i: u8) -> DateTime {
         1 => DateTime::constant(2024, 11, 3, 1, 30, 0, 0),
         2 => DateTime::constant(2024, 6, 1, 12, 0, 0, 0),
         3 => DateTime::constant(1970, 1, 1, 0, 0, 0, 0),
-        _ => DateTime::constant(2024, 3, 31, 1, 30, 0, 0),
+        4 => DateTime::constant(2024, 3, 31, 1, 30, 0, 0),
+        // The upper limit of the civil range: zones west of UTC cannot map
+        // it to an instant, so conversions take their error paths here.
+        // (`DateTime::MIN` is deliberately absent: on the unchanged tree
+        // `to_ambiguous_timestamp(DateTime::MIN)` panics for TZif zones whose
+        // first offset is negative -- "impossible to come before
+        // DateTime::MIN", src/tz/tzif.rs:327 -- a defect of the civil lookup
+        // itself, not of handles; see DESIGN.md 9.6.)
+        _ => DateTime::MAX,
     }
 }
 
@@ -427,7 +435,9 @@ pub fn apply<E: Env>(me: u8, op: &Op, slots: &mut Slots, env: &mut E) -> bool {
                 // A derived value owns no handle (and is not `Clone`).
                 return false;
             }
-            let is_tz = matches!(s.val, Val::Tz(_));
+            // Only the kinds documented as allocation-free are held to it; a
+            // heap zone may (correctly) do internal work on first use.
+            let is_tz = matches!(s.val, Val::Tz(_)) && !s.spec.heap();
             if is_tz {
                 env.no_alloc_begin();
             }
@@ -451,7 +461,7 @@ pub fn apply<E: Env>(me: u8, op: &Op, slots: &mut Slots, env: &mut E) -> bool {
                     return false;
                 }
                 let zone = old.zone;
-                let is_tz = matches!(old.val, Val::Tz(_));
+                let is_tz = matches!(old.val, Val::Tz(_)) && !old.spec.heap();
                 if is_tz {
                     env.no_alloc_begin();
                 }
@@ -477,11 +487,16 @@ pub fn apply<E: Env>(me: u8, op: &Op, slots: &mut Slots, env: &mut E) -> bool {
             if !x.val.has_handle() || !y.val.has_handle() {
                 return false;
             }
-            env.no_alloc_begin();
+            let inline = !x.spec.heap() && !y.spec.heap();
+            if inline {
+                env.no_alloc_begin();
+            }
             let ab = x.val.tz() == y.val.tz();
             let ba = y.val.tz() == x.val.tz();
             let xx = x.val.tz() == x.val.tz();
-            env.no_alloc_end("eq");
+            if inline {
+                env.no_alloc_end("eq");
+            }
             if !xx {
                 env.fail("eq_reflexive", format!("{:?} != itself", x.spec));
             }
